@@ -1,11 +1,13 @@
 (* C08 — revocation is effective, complete and restricted to the owning client.  Statements only.
    "Accepted" is judged at the API verdict of the revocation endpoint (see DESIGN.md 6.0). *)
-From FositeModel Require Import Base.Str Model.Scope Model.Core Model.Flows Proofs.Family Proofs.C08Proofs.
+From FositeModel Require Import Base.Str Model.Scope Model.Core Model.Flows Proofs.CoreInv Proofs.Family Proofs.Implicit Proofs.C08Proofs.
 
 (* accepted request of the owning client for a token with a live record: that token and the access/refresh
    token of the same grant are inactive for all later use (any history, hint, scope list, presentation).
-   [endpoint_token] / [i_kind e <> KImplicit]: for tokens minted by the token endpoint.  For the access token a hybrid
-   authorization hands out at the authorization endpoint the clause is refuted below (finding A10). *)
+   Every credential of the grant is covered, the access token of a hybrid authorization included (true since the repair of
+   RevokeAccessToken, finding A10).  [endpoint_token]: the PRESENTED token was minted by the token endpoint; for a presented
+   authorization-endpoint token see C08_authorization_endpoint_token_revocable below (its code may still be unredeemed, so
+   the grant as a whole is not dead, but the token and every other access token of the grant are gone for good). *)
 Theorem C08_revocation_effective_and_complete :
   forall cfg cls h1 c cl tok hint0 r h2 i e tampered hint scopes,
   let s1 := run cfg (state0 cls) h1 in
@@ -14,10 +16,22 @@ Theorem C08_revocation_effective_and_complete :
   let res := revoke cfg s1 (Some c) tok hint0 in
   o_err (snd res) = "" /\
   (let s2 := run cfg (fst res) h2 in
-   nth_error (log s2) i = Some e -> i_rid e = r_id r -> i_kind e <> KImplicit ->
+   nth_error (log s2) i = Some e -> i_rid e = r_id r ->
    introspect cfg s2 {| p_ref := CRef i; p_tampered := tampered |} hint scopes = None).
 Proof. exact revoke_effective. Qed.
 Print Assumptions C08_revocation_effective_and_complete.
+
+(* an accepted revocation of ANY live token by its owner removes every access token of the grant's request id, and the
+   presented authorization-endpoint token is reported inactive after every further history *)
+Theorem C08_authorization_endpoint_token_revocable :
+  forall cfg cls h1 c cl tok hnt r h2 i e tampered h scopes,
+  let s := run cfg (state0 cls) h1 in
+  clients s c = Some cl -> revoke_lookup s (key_of s tok) hnt = Some r -> r_client r = c ->
+  let s' := fst (revoke cfg s (Some c) tok hnt) in
+  nth_error (log (run cfg s' h2)) i = Some e -> i_rid e = r_id r -> i_kind e = KImplicit ->
+  introspect cfg (run cfg s' h2) {| p_ref := CRef i; p_tampered := tampered |} h scopes = None.
+Proof. exact revoked_implicit_token_reachable. Qed.
+Print Assumptions C08_authorization_endpoint_token_revocable.
 
 Theorem C08_foreign_client_refused_nothing_changes :
   forall cfg s c cl tok h r,
